@@ -176,6 +176,20 @@ reg('C12', 'exploration',
     'only for the schemes whose generic initial data stays finite on the '
     'unchanged tree (PCISPH, GasD listed as not asserted; ISPH needs scipy).')
 
+reg('C09', 'exploration',
+    'conservation monitor: the real compiled evaluator on closed random '
+    'systems, sum(m a) and sum(m x cross a) against a rounding model '
+    'relative to sum(m|a|); summation density positivity',
+    'Held on every evaluation explored: 15 momentum-equation set-ups (WCSPH, '
+    'delta-SPH, Monaghan viscosity, TVF pressure / viscosity / artificial '
+    'viscosity / artificial stress, EDAC, laminar viscosity, MPM, '
+    'Monaghan92, TSPH, PSPH, solid stress) x dims 1-3 x kernels x 1-3 '
+    'arrays x 8-9 neighbour algorithms x 16 (100) random states each.',
+    'Prerequisite fields are random admissible values (only pair symmetry is '
+    'tested); bound 1e-11 sqrt(pairs) sum(m|a|), three orders of magnitude '
+    'below a 0.1% asymmetry (checked by mutation); angular momentum only '
+    'for the central-force terms.')
+
 _pending = {
 }
 for _i in range(1, 21):
